@@ -211,6 +211,40 @@ def len_facts(b, pv, block):
     return out
 
 
+def index_facts(b, pv, block):
+    """facts 'I < len(X)' (as term strings) that hold on entry to block"""
+    out = []
+    for s, l, taken in mandatory_edges(b, block):
+        if taken == ('eq', 1) or taken == ('not-in', [0]):
+            truth = True
+        elif taken == ('eq', 0) or taken == ('not-in', [1]):
+            truth = False
+        else:
+            continue
+        for term in pv.of_local(l):
+            t = term
+            tr = truth
+            while t[0] == 'unop' and t[1] == 'Not':
+                t = t[2]
+                tr = not tr
+            if t[0] != 'binop' or t[1] not in ('Lt', 'Le', 'Gt', 'Ge'):
+                continue
+            a, c, op = t[2], t[3], t[1]
+            def is_len(x):
+                return (x[0] == 'call' and x[1] in ('std::vec::Vec::len', 'core::slice::<impl [T]>::len')) or x[0] == 'len'
+            if is_len(a) and not is_len(c):
+                a, c = c, a
+                op = {'Lt': 'Gt', 'Le': 'Ge', 'Gt': 'Lt', 'Ge': 'Le'}[op]
+            if not is_len(c):
+                continue
+            if not tr:
+                op = {'Lt': 'Ge', 'Le': 'Gt', 'Gt': 'Le', 'Ge': 'Lt'}[op]
+            base = F.term_str(c[2][0]) if c[0] == 'call' else F.term_str(c[1])
+            if op == 'Lt':
+                out.append((F.term_str(a), 'Lt', base))
+    return out
+
+
 def min_len(facts, base):
     m = 0
     for bs, op, n in facts:
@@ -245,6 +279,18 @@ def auto_discharge(e, pv):
                 facts = len_facts(b, pv, e.block)
                 if len(bases) == 1 and min_len(facts, next(iter(bases))) > k:
                     return ('len-guard', 'index %d dominated by a length test establishing len >= %d' % (k, min_len(facts, next(iter(bases)))))
+        if re.match(r'^core::num::<impl [iu](8|16|32|64|128|size)>::from_str_radix$', n) and len(t['args']) == 2:
+            c = const_eval(b, t['args'][1])
+            if c is not None and 2 <= c <= 36:
+                return ('const-radix', 'radix is the constant %d' % c)
+        if n in ('std::ops::Index::index', 'std::ops::IndexMut::index_mut') and len(t['args']) == 2 and re.search(r'(Vec<|\[)', t['arg_tys'][0]):
+            its = {F.term_str(x) for x in pv.of_operand(t['args'][1])}
+            bases = {F.term_str(x) for x in pv.of_operand(t['args'][0])}
+            if len(its) == 1 and len(bases) == 1:
+                it, base = next(iter(its)), next(iter(bases))
+                for (ib, op, lb) in index_facts(b, pv, e.block):
+                    if ib == it and lb == base and op == 'Lt':
+                        return ('index-guard', 'index dominated by the test `%s < len(%s)`' % (it[:40], base[:40]))
         if n in ('core::slice::<impl [T]>::windows', 'core::slice::<impl [T]>::chunks', 'core::slice::<impl [T]>::chunks_exact') and len(t['args']) == 2:
             c = const_eval(b, t['args'][1])
             if c is not None and c > 0:
@@ -272,8 +318,8 @@ def auto_discharge(e, pv):
                 return ('const-arith', 'constant operands %s: result %d fits %s' % (vals, r(*vals), ty))
         if m.startswith('Overflow(Add)') and len(ops) == 2 and const_int(ops[1]) == 1:
             ty = operand_type(b, ops[0])
-            if ty == 'usize':
-                return ('usize-counter', 'usize counter + 1 cannot overflow before memory is exhausted')
+            if ty in ('usize', 'u64'):
+                return ('usize-counter', '%s counter + 1 cannot overflow before memory/time is exhausted' % ty)
         if m in ('DivisionByZero', 'RemainderByZero'):
             # the assert operand is the dividend; the divisor is the left operand of the `== 0` test feeding the condition
             cl = F.op_local(t['cond'])
@@ -337,19 +383,26 @@ def audit(fx, rep, rule, bodies, ledger, family):
                 rep.violation(rule, 'edge/%s/extra#%d' % (k, counts[k]), e.loc, 'a further panic edge of an audited kind appeared in %s (%d audited, this is #%d): %s' % (e.fn, maxn, counts[k], e.why))
         else:
             pending.append(e)
-    # move tolerance
-    unmatched = {k: v for k, v in ledger.items() if v.get('family') == family and k not in used}
+    # move tolerance: an audited edge that left its function (helper extracted, code moved) is recognised by
+    # kind + detail among the ledger entries of the same family that still have unused audited occurrences
+    remaining = {}
+    for k, v in ledger.items():
+        if v.get('family') != family or v['class'] != 'benign':
+            continue
+        rem = v.get('count', 1) - counts.get(k, 0)
+        if rem > 0:
+            remaining[k] = rem
     for e in pending:
         moved = None
-        for k, v in unmatched.items():
+        for k in remaining:
             kf, kk, kd = k.split('|', 2)
-            if kk == e.kind and kd == e.detail and v['class'] == 'benign':
-                moved = (k, v)
+            if kk == e.kind and kd == e.detail and remaining[k] > 0:
+                moved = k
                 break
         if moved:
-            del unmatched[moved[0]]
-            rep.ok(rule, 'moved/%s' % e.key(), e.loc, 'audited edge moved from %s: %s' % (moved[0].split('|')[0], moved[1]['reason']))
-            rep.note('panic edge %s moved from %s' % (e.key(), moved[0].split('|')[0]))
+            remaining[moved] -= 1
+            rep.ok(rule, 'moved/%s' % e.key(), e.loc, 'audited edge moved from %s: %s' % (moved.split('|')[0], ledger[moved]['reason']))
+            rep.note('panic edge %s moved from %s' % (e.key(), moved.split('|')[0]))
         else:
             rep.violation(rule, 'edge/%s' % e.key(), e.loc, 'unaudited panic edge in %s: %s (%s)' % (e.fn, e.detail, e.why))
     return edges
